@@ -251,7 +251,7 @@ var c03Muts = []c03Mut{
 		return c03Join(toks)
 	}},
 	{"mut-nest", func(r *rng, src string) string {
-		depth := pick(r, []int{1, 2, 5, 17, 64, 200, 500, 1000, 2000})
+		depth := pick(r, []int{1, 2, 5, 17, 64, 200, 500, 1000, 2000, 9999, 10000, 10001, 20000}) // the front end stops at 10000
 		if r.chance(30) {
 			depth = 1 + r.intn(2000)
 		}
